@@ -196,7 +196,7 @@ def gen(rng: random.Random, tier: str):
                "ordered": rng.random() < 0.5, "seed": rng.randrange(10**6), "vocab": rng.choice(["none", "none", "known", "with-unknown"]),
                "nan_scores": rng.random() < 0.15}          # a score field that is NaN for every item (e.g. nothing could be scored)
     for _ in range(n // 2):
-        yield {"kind": "collection", "n": rng.randint(0, 4), "same_fields": rng.random() < 0.6, "seed": rng.randrange(10**6)}
+        yield {"kind": "collection", "n": rng.randint(0, 4), "same_fields": rng.random() < 0.6, "seed": rng.randrange(10**6), "dup_keys": rng.random() < 0.35}
     for _ in range(max(4, n // 10)):
         yield {"kind": "dataset", "seed": rng.randrange(10**6), "extra": rng.random() < 0.5, "how": rng.choice(["native", "pickle"])}
     # generated datasets (identifiers registered out of order, integer or string, every attribute layout) and models trained on them
@@ -299,7 +299,10 @@ def run(case: dict, lean: Lean) -> Outcome:
     elif kind == "collection":
         fsets = [["score"], ["score", "rating"], ["rating", "cnt"], []]
         f0 = rnd.choice(fsets); ilc = ItemListCollection.empty(UserIDKey)
-        for k in rnd.sample(range(1, 50), case["n"]):
+        ckeys = rnd.sample(range(1, 50), case["n"])
+        if case.get("dup_keys") and ckeys:          # a collection may hold several lists under one key; each is saved and loaded as its own list
+            ckeys.insert(rnd.randint(1, len(ckeys)), ckeys[0]); classes.append("duplicate keys")
+        for k in ckeys:
             fl = f0 if case["same_fields"] else rnd.choice(fsets)
             ilc.add(_mk_il(rnd, rnd.randint(0, 4), False, fl, rnd.random() < 0.7), user_id=k)
         want = [(tuple(k), canon(v)) for k, v in ilc.items()]
